@@ -62,6 +62,8 @@ fn trace(a: &[String]) {
             g_matrix(&mut w, &mut r5, if thorough { 12 } else { 2 });
             let mut r8 = Rng::new(seed, "long", shard);
             g_long(&mut w, &mut r8, if thorough { 1500 } else { 500 });
+            let mut r9 = Rng::new(seed, "result", shard);
+            g_result(&mut w, &mut r9, if thorough { 6 } else { 1 });
             let mut r7 = Rng::new(seed, "immobile", shard);
             g_immobile(&mut w, &mut r7, if thorough { 200 } else { 30 });
             let mut r6 = Rng::new(seed, "illegal", shard);
